@@ -37,6 +37,18 @@ Proof.
   rewrite !dy_B2R by assumption. f_equal. f_equal. unfold F2R. cbn. ring.
 Qed.
 
+(** [rt_phys_ok_f] on inputs that satisfy its hypotheses is that comparison *)
+Lemma rt_phys_ok_f_spec steps scale offset mn mx signed len p back :
+  (len <=? 32)%Z = true -> resolves_f scale offset = true -> is_finite p = true ->
+  in_range_f mn mx p = true -> in_representable_f scale offset signed len p = true ->
+  is_finite back = true -> is_finite scale = true ->
+  rt_phys_ok_f steps scale offset mn mx signed len p back =
+  Rlt_bool (Rabs (B2R back - B2R p)) (IZR steps * Rabs (B2R scale)).
+Proof.
+  intros Hl Hr Fp Hi Hp Fb Fs. unfold rt_phys_ok_f, finiteb. rewrite Hl, Hr, Fp, Hi, Hp, Fb. cbn [andb].
+  apply rt_bound_spec; assumption.
+Qed.
+
 (** * the strict physical round-trip clause is false of the faithful model *)
 (** scale 0.1, offset -40, no declared range, unsigned 16 bits; p = -39.6 (the double nearest to
     it) lies inside the representable range [-40, 6513.5]; FromPhysical gives 3.99999999999998...,
@@ -65,13 +77,10 @@ Theorem rt_phys_strict_refuted :
   Rabs (B2R w_scale) <= Rabs (B2R w_back - B2R w_p) < 2 * Rabs (B2R w_scale).
 Proof.
   destruct witness_facts as (H1 & H2 & Fp & H3 & H4 & _ & _ & Fb & Fs & N1 & N2).
-  repeat split; try assumption.
-  - unfold rt_phys_ok_f in N1. cbn [Z.leb Z.compare andb] in N1.
-    rewrite H2, H3, H4 in N1. unfold finiteb in N1. rewrite Fp, Fb in N1. cbn [andb] in N1.
-    rewrite (rt_bound_spec 1 w_scale w_p w_back Fs Fp Fb) in N1.
-    destruct (Rlt_bool_spec (Rabs (B2R w_back - B2R w_p)) (1 * Rabs (B2R w_scale))); [discriminate|lra].
-  - unfold rt_phys_ok_f in N2. cbn [Z.leb Z.compare andb] in N2.
-    rewrite H2, H3, H4 in N2. unfold finiteb in N2. rewrite Fp, Fb in N2. cbn [andb] in N2.
-    rewrite (rt_bound_spec 2 w_scale w_p w_back Fs Fp Fb) in N2.
-    destruct (Rlt_bool_spec (Rabs (B2R w_back - B2R w_p)) (2 * Rabs (B2R w_scale))); [lra|discriminate].
+  split; [exact H1|]. split; [exact H2|]. split; [exact H3|]. split; [exact H4|].
+  rewrite (rt_phys_ok_f_spec 1 w_scale w_offset fzero fzero false 16 w_p w_back eq_refl H2 Fp H3 H4 Fb Fs) in N1.
+  rewrite (rt_phys_ok_f_spec 2 w_scale w_offset fzero fzero false 16 w_p w_back eq_refl H2 Fp H3 H4 Fb Fs) in N2.
+  revert N1 N2. generalize (Rabs (B2R w_back - B2R w_p)) (Rabs (B2R w_scale)). intros a b N1 N2.
+  destruct (Rlt_bool_spec a (1 * b)); [discriminate|].
+  destruct (Rlt_bool_spec a (2 * b)); [lra|discriminate].
 Qed.
